@@ -1,0 +1,17 @@
+//go:build verif
+
+// Contracts for the deductive verifier in /verif (comment-only; compiled only with -tags verif).
+package types
+
+// Pure validation of a genesis state: no effect on the chain state (frame), result not constrained here.
+//@ func ValidateGenesis
+//@   property C19
+//@   returns err
+//@   invariant #1 t: true
+//@ end
+
+//@ func ValidateContents
+//@   property C19
+//@   returns err
+//@   invariant #1 t: true
+//@ end
